@@ -29,17 +29,20 @@ def Scope.level : Scope → Nat
   | .test => 1 | .suite => 2 | .session => 3 | .preRun => 4
 
 /-- how a unit of user code is left by an exception, as the runner and `lcc.Thread.run` classify it.
-    `baseExc`: a `BaseException` that is NOT an `Exception` — `sys.exit()` in user code (`SystemExit`), a
-    `GeneratorExit`, a project's own `BaseException` subclass.  In a unit run by the task's own thread the runner
-    catches `BaseException` (fix D38) and `handle_exception` treats it like any unexpected exception; in the
-    target of an `lcc.Thread`, `Thread.run` only has `except Exception`: nothing is logged, the `finally` clause
-    ends the thread's step, the thread dies and the test goes on (`ExcKind.caughtByThread`). -/
-inductive ExcKind | exc | abortTest | abortSuite | abortAll | interrupted | baseExc
+    `sysExit` / `baseExc`: a `BaseException` that is NOT an `Exception` — `sys.exit()` in user code (`SystemExit`),
+    resp. any other one (`GeneratorExit`, a project's own `BaseException` subclass).  In a unit run by the task's
+    own thread the runner catches `BaseException` (fix D38) and `handle_exception` treats both like any unexpected
+    exception.  In the target of an `lcc.Thread` (`Thread.run`, as repaired by fix D40):
+    `except Exception: log_error(..)` / `except SystemExit: raise` / `except BaseException: log_error(..); raise` /
+    `finally: end_step()` — `sys.exit()` is the regular way of ending a thread from the inside: nothing is logged;
+    every other class is an uncaught exception of the test: an error is logged (the location is failed); in all
+    cases the `finally` clause ends the thread's step, and the test goes on (`ExcKind.caughtByThread`). -/
+inductive ExcKind | exc | abortTest | abortSuite | abortAll | interrupted | sysExit | baseExc
 deriving DecidableEq, Repr, Inhabited
 
-/-- `lcc.Thread.run`: `except Exception:` — is what ended the thread's target logged as an error? -/
+/-- `lcc.Thread.run`: is what ended the thread's target logged as an error?  Everything but `SystemExit`. -/
 def ExcKind.caughtByThread : ExcKind → Bool
-  | .baseExc => false
+  | .sysExit => false
   | _ => true
 
 /-- does `Thread.run` log an error for this outcome of the thread's target? (`none` = the target returned) -/
@@ -375,8 +378,8 @@ def execActs (fuel : Nat) (role : Nat) (u : UnitId) (i : Nat) : List Act → M (
           sop c .threadRun
           let r ← execScript fuel c (.th u i) inner
           if threadLogs r then
-            -- `Thread.run`: `except Exception: self._session.log_error(...)` (the session method: no interrupt check);
-            -- a BaseException that is no Exception passes through it unlogged
+            -- `Thread.run`: `except Exception: self._session.log_error(...)` (the session method: no interrupt check),
+            -- the same for a BaseException other than SystemExit (fix D40); SystemExit passes through unlogged
             sop c (.log .error "")
           -- `finally: self._session.end_step()`: whatever ended the target — return, Exception, BaseException
           sop c .threadEnd
@@ -395,7 +398,7 @@ def execActs (fuel : Nat) (role : Nat) (u : UnitId) (i : Nat) : List Act → M (
       | some k =>
         emitUser role u (match k with
           | .exc => "raise:exc" | .abortTest => "raise:AbortTest" | .abortSuite => "raise:AbortSuite"
-          | .abortAll => "raise:AbortAllTests" | .interrupted => "raise:interrupted" | .baseExc => "raise:exc")
+          | .abortAll => "raise:AbortAllTests" | .interrupted => "raise:interrupted" | .sysExit => "raise:exc" | .baseExc => "raise:exc")
         return some k
       | none => execActs fuel role u (i + 1) rest
 /-- a unit of user code -/
